@@ -368,6 +368,20 @@ def cbordec_stage(ctx, label, cfg, relaxed=False, workers=4, extra_args=None):
     return rep
 
 
+def cbor_random_stage(ctx, n, label, relaxed=False, extra_args=None, maxdepth=1024):
+    """Random decoder inputs beyond the enumerated strings: written by the Go side (vh cbor-gen) without verdicts,
+    evaluated by TLC on the decoder machine (DagCborDec, Mode = "file"), replayed like every other input."""
+    inp = os.path.join(ctx.scratch, "cg-%s.ndjson" % label)
+    ctx.vh_run(["cbor-gen", "-n", str(n), "-seed", str(ctx.seed * 31 + len(label)), "-out", inp])
+    f = os.path.join(ctx.scratch, "cg-%s-out.ndjson" % label)
+    ctx.tlc("DagCborDec", dec_cfg("file", free=0, relaxed=relaxed, maxdepth=maxdepth), capture=f, workers=8, trace_file=inp,
+            timeout=3000)
+    args = ["cbordec", "-in", f] + (["-relaxed"] if relaxed else []) + (extra_args or [])
+    ctx.absorb(ctx.vh_run(args, timeout=3000), args, label="cbordec/random-" + label)
+    os.remove(f)
+    os.remove(inp)
+
+
 @prop("C03")
 def c03(ctx):
     quick = ctx.tier == "quick"
@@ -394,13 +408,20 @@ def c03(ctx):
     # (iii) relaxed mode: only what it still promises (indefinite rejected, value fidelity)
     cbordec_stage(ctx, "relaxed", dec_cfg("explore", free=2 if quick else 3, alphabet="full", seeds="deep", relaxed=True),
                   relaxed=True, workers=8)
+    # (iv) random inputs beyond these bounds: nested encodings (depth <= 4) and their structural / byte-level mutations
+    cbor_random_stage(ctx, 30000 if quick else 300000, "strict")
+    cbor_random_stage(ctx, 10000 if quick else 100000, "relaxed", relaxed=True)
     return ctx.finish(
         "model_checking",
         rule="inputs = every byte string over a 51-byte representative alphabet (one byte per major type x additional-info "
              "class + payload bytes) up to the free length, after each scripted prefix, plus every byte-level mutant "
              "(bit flips, substitutions, truncations, extensions, deletions, duplications) of the canonical encodings of "
              "the bounded value domain; the specification's decoder machine gives the verdict (accept + value, or a "
-             "labelled rejection) for each and the real decoder must agree; non-trivial = longer than one byte; "
+             "labelled rejection) for each and the real decoder must agree; plus seeded random inputs up to 48 bytes -- "
+             "encodings of random nested values (depth <= 4, every kind, every head width, several CID shapes) and their "
+             "mutations (entries swapped / repeated, heads widened, definite lengths made indefinite, bytes flipped / inserted "
+             "/ dropped, truncations, trailing bytes), written by the Go side WITHOUT verdicts and evaluated by TLC on the same "
+             "machine; non-trivial = longer than one byte; "
              "distinct = distinct byte strings",
         assumptions=["strings are not required to be valid UTF-8 (the property does not ask for it)",
                      "CID well-formedness follows the CID/multihash/varint specifications (ValidCid)"],
@@ -1195,6 +1216,16 @@ def c10(ctx):
     ctx.tlc("DagCborDec", dec_cfg("explore", free=3, alphabet="small" if quick else "full"), capture=f, workers=8, timeout=2400)
     args = ["total", "-mode", "cbor", "-in", f, "-cfgevery", "11" if quick else "3"]
     ctx.absorb(ctx.vh_run(args, timeout=3000), args, label="total/cbor")
+    # (a', b') the same two on random nested inputs beyond the enumerated strings (vh cbor-gen, evaluated by TLC)
+    for md in (2, 3):
+        cbor_random_stage(ctx, 10000 if quick else 60000, "maxdepth%d" % md, extra_args=["-maxdepth", str(md), "-depthonly"],
+                          maxdepth=md)
+    inp = os.path.join(ctx.scratch, "cg-total.ndjson")
+    ctx.vh_run(["cbor-gen", "-n", "4000" if quick else "40000", "-seed", str(ctx.seed * 13 + 5), "-out", inp])
+    f = os.path.join(ctx.scratch, "cg-total-out.ndjson")
+    ctx.tlc("DagCborDec", dec_cfg("file", free=0), capture=f, workers=8, trace_file=inp, timeout=3000)
+    args = ["total", "-mode", "cbor", "-in", f, "-cfgevery", "7" if quick else "2"]
+    ctx.absorb(ctx.vh_run(args, timeout=3000), args, label="total/cbor-random")
     # (c) dag-json, json, cbor, raw into generic and typed assemblers: totality on mutants and hostile inputs
     args = ["total", "-mode", "other", "-seed", str(ctx.seed)]
     ctx.absorb(ctx.vh_run(args, timeout=3000), args, label="total/other")
